@@ -67,6 +67,8 @@ def entries(curve, vk, digest, msg):
     n = curve.order
     E = []
     E.append(Entry("vk.from_string", lambda b: ecdsa.VerifyingKey.from_string(b, curve), KEYSET, lambda k: k.to_string()))
+    # validation of the point switched off (documented parameter): what is still refused is refused with the documented types
+    E.append(Entry("vk.from_string.novalidate", lambda b: ecdsa.VerifyingKey.from_string(b, curve, validate_point=False), KEYSET, lambda k: k.to_string()))
     E.append(Entry("vk.from_der", lambda b: ecdsa.VerifyingKey.from_der(b), KEYSET, lambda k: k.to_string()))
     E.append(Entry("vk.from_pem", lambda b: ecdsa.VerifyingKey.from_pem(b), KEYSET, lambda k: k.to_string()))
     E.append(Entry("sk.from_string", lambda b: ecdsa.SigningKey.from_string(b, curve), KEYSET, lambda k: k.to_string()))
@@ -184,7 +186,7 @@ def feed(ctx, ent, data, kind, stats, cname):
 
 def _repro(name, data, cname):
     calls = {
-        "vk.from_string": "ecdsa.VerifyingKey.from_string(data, C)", "vk.from_der": "ecdsa.VerifyingKey.from_der(data)", "vk.from_pem": "ecdsa.VerifyingKey.from_pem(data)",
+        "vk.from_string": "ecdsa.VerifyingKey.from_string(data, C)", "vk.from_string.novalidate": "ecdsa.VerifyingKey.from_string(data, C, validate_point=False)", "vk.from_der": "ecdsa.VerifyingKey.from_der(data)", "vk.from_pem": "ecdsa.VerifyingKey.from_pem(data)",
         "sk.from_string": "ecdsa.SigningKey.from_string(data, C)", "sk.from_der": "ecdsa.SigningKey.from_der(data)", "sk.from_pem": "ecdsa.SigningKey.from_pem(data)",
         "sigdecode_string": "util.sigdecode_string(data, C.order)", "sigdecode_der": "util.sigdecode_der(data, C.order)",
         "ecdh.pub_bytes": "ECDH(C).load_received_public_key_bytes(data)", "ecdh.pub_der": "ECDH(C).load_received_public_key_der(data)",
@@ -220,10 +222,14 @@ def material(curve, rng):
     L = curve.baselen
     rb, sb = r.to_bytes(L, "big"), s.to_bytes(L, "big")
     M = {
-        "pub_raw": (vk.to_string("raw"), ["vk.from_string", "ecdh.pub_bytes"]),
-        "pub_unc": (vk.to_string("uncompressed"), ["vk.from_string", "ecdh.pub_bytes", "ecdh.pub_bytes_nocurve"]),
-        "pub_cmp": (vk.to_string("compressed"), ["vk.from_string", "ecdh.pub_bytes"]),
-        "pub_hyb": (vk.to_string("hybrid"), ["vk.from_string", "ecdh.pub_bytes"]),
+        "pub_raw": (vk.to_string("raw"), ["vk.from_string", "vk.from_string.novalidate", "ecdh.pub_bytes"]),
+        "pub_unc": (vk.to_string("uncompressed"), ["vk.from_string", "vk.from_string.novalidate", "ecdh.pub_bytes", "ecdh.pub_bytes_nocurve"]),
+        "pub_cmp": (vk.to_string("compressed"), ["vk.from_string", "vk.from_string.novalidate", "ecdh.pub_bytes"]),
+        "pub_hyb": (vk.to_string("hybrid"), ["vk.from_string", "vk.from_string.novalidate", "ecdh.pub_bytes"]),
+        # coordinates at and above the field prime, all-ones coordinates
+        "pub_raw_x_is_p": (int(curve.curve.p()).to_bytes(len(vk.to_string("raw")) // 2, "big") + vk.to_string("raw")[len(vk.to_string("raw")) // 2:], ["vk.from_string", "vk.from_string.novalidate", "ecdh.pub_bytes"]),
+        "pub_unc_y_all_ones": (vk.to_string("uncompressed")[:1 + len(vk.to_string("raw")) // 2] + b"\xff" * (len(vk.to_string("raw")) // 2), ["vk.from_string", "vk.from_string.novalidate", "ecdh.pub_bytes"]),
+        "pub_hyb_x_all_ones": (vk.to_string("hybrid")[:1] + b"\xff" * (len(vk.to_string("raw")) // 2) + vk.to_string("raw")[len(vk.to_string("raw")) // 2:], ["vk.from_string", "vk.from_string.novalidate"]),
         "pub_der": (vk.to_der(), ["vk.from_der", "ecdh.pub_der"]),
         "pub_der_cmp": (vk.to_der("compressed"), ["vk.from_der", "ecdh.pub_der"]),
         "pub_pem": (vk.to_pem(), ["vk.from_pem", "ecdh.pub_pem"]),
